@@ -100,6 +100,28 @@ func (c *ctl) point(before bool) {
 	c.mu.Unlock()
 }
 
+// parkSend is the park point inside a harness-owned outbound dispatcher (park index -2).
+func (c *ctl) parkSend() {
+	if !c.forced {
+		c.point(true)
+
+		return
+	}
+
+	c.mu.Lock()
+
+	if c.armed && !c.isParked && c.parkAt == -2 {
+		c.isParked = true
+		c.mu.Unlock()
+		c.parked <- struct{}{}
+		<-c.release
+
+		return
+	}
+
+	c.mu.Unlock()
+}
+
 type yProvider struct {
 	inner spi.Provider
 	c     *ctl
